@@ -6,5 +6,5 @@ d=$(mktemp -d /tmp/refac_run.XXXXXX)
 git -C /repo worktree add -q --detach $d/repo HEAD || exit 2
 for f in $diffs; do git -C $d/repo apply $f || { echo "$name: $f DOES NOT APPLY"; }; done
 (cd $d/repo; PYTHONPATH=$d/repo /venv/bin/python -m pytest -q -p no:cacheprovider --timeout=900 tests docs 2>&1 | grep -v conda | tail -1)
-for p in "$@"; do echo $p; done | xargs -P 5 -I{} bash -c "n=\$(VERIF_GEN_SUFFIX=_rf${name} VERIF_REPO=$d/repo /verif/check {} 2>/dev/null | grep -c VIOLATION); echo \"$name {} false_alarm_lines=\$n\""
+for p in "$@"; do echo $p; done | xargs -P 4 -I{} bash -c "n=\$(VERIF_GEN_SUFFIX=_rf${name} VERIF_EVIDENCE_DIR=$d/evidence VERIF_REPO=$d/repo /verif/check {} 2>/dev/null | grep -c VIOLATION); echo \"$name {} false_alarm_lines=\$n\""
 git -C /repo worktree remove --force $d/repo; rm -rf $d /verif/coq/gen/*_rf${name}*
